@@ -16,6 +16,7 @@
 # You should have received a copy of the GNU General Public License
 # along with HoloPy.  If not, see <http://www.gnu.org/licenses/>.
 
+import sys
 import warnings
 
 import numpy as np
@@ -121,6 +122,8 @@ class Model(HoloPyObject):
                   'constraints': fields.get('constraints', [])}
         for key in ['optics', 'model']:
             kwargs.update(read_map(maps[key], parameters))
+        if 'calc_func' in fields:
+            kwargs['calc_func'] = fields['calc_func']
         model = cls(**kwargs)
         if model._parameters == parameters:
             model._parameter_names = fields['_parameter_names']
@@ -453,6 +456,16 @@ class ExactModel(Model):
         super().__init__(scatterer, noise_sd, medium_index, illum_wavelen,
                          illum_polarization, theory, constraints)
         self.calc_func = calc_func
+
+    def _iteritems(self):
+        for item in super()._iteritems():
+            yield item
+        func = self.calc_func
+        module = sys.modules.get(getattr(func, '__module__', None))
+        if (func is not calc_holo and
+                getattr(module, getattr(func, '__name__', ''), None) is func):
+            # a function that can be found again by its name is saved too
+            yield 'calc_func', func
 
     def _forward(self, pars, detector):
         """
